@@ -379,6 +379,22 @@ def nbt_canon(v):
 
 # -- field codec ----------------------------------------------------------------
 
+_LONG_STRINGS = {}
+
+
+def string_field(s):
+    """codec.string(s); the result for a long string (the UTF-8 encoder of
+    codec is written out by hand and slow) is remembered."""
+    if len(s) < 1024:
+        return codec.string(s)
+    out = _LONG_STRINGS.get(s)
+    if out is None:
+        if len(_LONG_STRINGS) >= 64:
+            _LONG_STRINGS.clear()
+        out = _LONG_STRINGS[s] = codec.string(s)
+    return out
+
+
 def enc_field(typ, v):
     if typ == 'varint':
         return codec.varint_signed(_s32(v))
@@ -401,7 +417,7 @@ def enc_field(typ, v):
             raise TypeError(v)
         return codec.boolean(v)
     if typ == 'string':
-        return codec.string(v)
+        return string_field(v)
     if typ == 'uuid':
         return codec.uuid_bytes(v)
     if typ == 'bytes':
@@ -550,6 +566,14 @@ def _selftest_layouts():
         'max_players': 20, 'level_type': 'flat',
         'reduced_debug_info': False}) == \
         bytes.fromhex('00000001 09 ff 02 14 04') + b'flat' + b'\x00'
+    # a string of 10923 three-byte characters: 32769 bytes, prefix 81 80 02
+    big = '\u4e2d' * 10923
+    for _ in range(2):      # second time from the memo
+        enc = encode('play.disconnect', 47, {'reason': big})
+        assert enc[:3] == bytes.fromhex('818002') and len(enc) == 32772
+        assert enc[3:] == bytes.fromhex('e4b8ad') * 10923
+        assert enc == codec.string(big)
+    assert decode('play.disconnect', 47, enc) == {'reason': big}
     assert encode('sb.login.plugin_response', 404, {
         'message_id': 7, 'successful': False, 'data': None}) == b'\x07\x00'
     assert encode('sb.login.plugin_response', 404, {
